@@ -18,8 +18,8 @@ from lib.common import MachineryError, classify_mismatches, log
 
 PKG = "./core/record"
 INV_A = "INVARIANTS TypeOKA BindingA HonestA RoundTripA"
-BROKEN = ("nodomain", "notype", "nopayload", "nokey", "noowner")
-REACH = ("ReachAttackerAccepted", "ReachForeignOwner")
+BROKEN = ("nodomain", "notype", "nopayload", "nokey", "noowner", "anyenc", "lookalike")
+REACH = ("ReachAttackerAccepted", "ReachForeignOwner", "ReachLookalike", "ReachForeignAltSig")
 
 
 def _fast_unescape(s, _slow=tlc._unescape):
@@ -136,7 +136,7 @@ def run(ctx):
     gB = graph.Graph(results[bname]["inits"], results[bname]["edges"])
     gC = graph.Graph(results["C-edges"]["inits"], results["C-edges"]["edges"])
     kA, kB, kC = _kinds(gA), _kinds(gB), _kinds(gC)
-    for need in ("setkey", "settype", "setpay", "badsig", "truncate", "resign", "swap", "consume"):
+    for need in ("setkey", "settype", "setpay", "badsig", "truncate", "resign", "swap", "reencode", "attseal", "consume"):
         if not kA.get(need):
             raise MachineryError("vacuous: part A graph has no %s transition" % need)
     accA = {}
@@ -161,7 +161,7 @@ def run(ctx):
     stB = stats[0]
     if stB["images"]["code"] != stB["triples"] or stB["images"]["plain"] >= stB["triples"]:
         raise MachineryError("injectivity statistics inconsistent: %s" % stB)
-    for need in ("conv", "decodex", "extract", "pick", "sign", "mutsig", "verify", "verifymut", "equals", "matches", "mutform", "idlen"):
+    for need in ("verifyenc", "lookalike", "matchesx", "consumex", "extractx", "conv", "decodex", "extract", "pick", "sign", "mutsig", "verify", "verifymut", "equals", "matches", "mutform", "idlen"):
         if not kC.get(need):
             raise MachineryError("vacuous: part C graph has no %s transition" % need)
     ver = {}
